@@ -27,6 +27,11 @@ def canonical(cfgname, configs, close=True):
             if cfg.get("canon") == "burst":
                 # application calls first (all send_message calls are issued before anything is delivered)
                 tr = sim.canonical(honest_policy(close=close, order=BURST_ORDER))
+            elif cfg.get("canon") in ("starveA", "starveB"):
+                # one client's inbound queue is served last: several peer messages are pending for it at once
+                tr = sim.canonical(honest_policy(close=close, order=("open", "set_code", "allocate", "input", "choose_nameplate", "choose_words",
+                                                                    "send", "proc", "turn", "rx", "stopped"),
+                                                 prefer="B" if cfg["canon"] == "starveA" else "A"))
             elif cfg.get("canon") == "lazy":
                 # the server processes commands as late as possible (unprocessed commands pile up and can be lost together)
                 tr = sim.canonical(honest_policy(close=close, order=LAZY_ORDER))
@@ -119,6 +124,7 @@ class Explore(Job):
             self._oracle(sim, "settled")
             eng().note("nt:explored")
         finally:
+            eng().stats.cover |= sim.world.transitions
             sim.close_world()
 
     def replay(self, inp, label):
